@@ -769,6 +769,28 @@ def run_compiled_suite(ctx, ck, suite, progs):
     return cases, results
 
 
+def run_coqchk(ctx):
+    """independent re-check of the compiled theory of Props/C09 and everything it
+    depends on (coqchk -o); its context summary goes into the evidence"""
+    import subprocess
+    with vlib.Lock():
+        try:
+            p = subprocess.run(['timeout', '1200', 'coqchk', '-silent', '-o', '-Q', '.', 'QV', 'QV.Props.C09'],
+                               cwd=vlib.COQ, stdout=subprocess.PIPE, stderr=subprocess.STDOUT, text=True,
+                               timeout=1230)
+            out, rc = p.stdout, p.returncode
+        except Exception as e:  # noqa
+            out, rc = repr(e), 99
+    m = re.search(r'\* Axioms:(.*?)\n\s*\n\* ', out, re.S)
+    axioms = m.group(1).strip() if m else '?'
+    ctx.extra['coqchk'] = {'cmd': 'coqchk -silent -o -Q . QV QV.Props.C09', 'exit': rc, 'axioms': axioms,
+                           'summary': out[-900:]}
+    if rc != 0 or axioms != '<none>':
+        ctx.broken.append(f'coqchk of QV.Props.C09: exit {rc}, axioms {axioms[:200]}')
+    else:
+        ctx.trusted_base.append('coqchk -o over QV.Props.C09 and its dependencies: Axioms: <none>')
+
+
 def main(tier, seed):
     ctx = Ctx(PROP, tier, seed, 'proof')
     ctx.trusted_base = [
@@ -787,6 +809,8 @@ def main(tier, seed):
         ctx.obligations = ['gen_tables']
         return ctx.finish()
     ok = ctx.prove()
+    if ok and tier == 'thorough':
+        run_coqchk(ctx)
     try:
         exe = ctx.model('Codec')
     except vlib.BuildError as e:
